@@ -617,7 +617,8 @@ class Exec:
                 # a promoted constant belongs to the function being executed: same `<impl at file:line:col>` segment / same function name
                 cur = st.stack[-1].func.name
                 mi = re.search(r'<impl at [^>]*>', cur)
-                keep = [k for k in cands if (mi and mi.group(0) in k) or k.startswith(cur + '::promoted[')]
+                exact = [k for k in cands if k.startswith(cur + '::promoted[')]
+                keep = exact or [k for k in cands if (mi and mi.group(0) in k)]
                 cands = keep or cands
             if len(cands) != 1:
                 raise NotEncoded(f'promoted constant {tok}: {len(cands)} candidates')
